@@ -55,6 +55,8 @@ def _mkgen():
     add("latest", b"v2", link=True)
     add("v2/", isdir=True)                               # explicit directory
     add("v2/f.txt", b"v2 file\n")
+    add("v2/.abstract", b"About version two\nsecond line\n")   # sidecars OF A DIRECTORY live inside it
+    add("v2/.keywords", b"versions\n")
     add("imp/deep/x.txt", b"implicit dirs\n")            # implicit directories
     add("imp/.hidden", b"dot file\n")
     add("imp/abs", b"/data.txt", link=True)              # absolute link
@@ -64,6 +66,7 @@ def _mkgen():
     add("imp/loop2", b"loop1", link=True)
     add("imp/out", b"../../etc/passwd", link=True)       # climbs out of the archive
     add("meta/doc.txt", b"document\n")
+    add("meta/.abstract", b"Directory with metadata\n")
     add("meta/doc.txt.abstract", b"Caf\xe9 abstract\nsecond line\n")   # non-UTF-8 sidecar
     add("meta/.Links", b"Name=R\xe9sum\xe9\nPath=./doc.txt\nNumb=1\n")
     add("meta/.cap/doc.txt", b"Type=0\n")
@@ -207,6 +210,34 @@ def body_lookup(fx: int, p: str, warm: str) -> bool:
     else:
         hx.require(isf and not isd and not st_dir, "C16:file-member-kind", lambda: "%s: %r" % (fixture, p))
         hx.require(data == ref[1] and st_size == len(ref[1]), "C16:member-bytes-differ", lambda: "%s: %r: %d bytes vs %d" % (fixture, p, len(data or b""), len(ref[1])))
+    return True
+
+
+CROSS = ["pygopherd/ziponly", "pygopherd/pipetest.sh", "subdir/linked2.txt", "subdir2/real2.txt", "v2/f.txt", "meta/doc.txt", "imp/deep/x.txt", "README", "testfile.txt"]
+
+
+def body_cross(fx: int, wfx: int, pi: int) -> bool:
+    """Two archives served by one process: a lookup of path P in archive W (where it may not exist)
+    must not change what archive F answers for P.  The memo tables are emptied IN PLACE, so whatever
+    sharing the code has between VFSZip objects is kept."""
+    f, wf, p = FIXTURES[fx], FIXTURES[wfx], CROSS[pi]
+    for vv in ZIPS.values():
+        vv.entrycache.clear()
+        vv.invalid_paths.clear()
+    try:
+        ZIPS[wf].exists("/" + wf + "/" + p)
+        ZIPS[wf].exists("/" + wf + "/" + p.split("/")[0])
+        ex, isd, isf, names, data, st_ok, st_dir, st_size = _query(ZIPS[f], f, p)
+    except Exception as e:
+        raise hx.Violation("C16:lookup-raises:%s" % type(e).__name__, "%s after %s: %r: %r" % (f, wf, p, e))
+    hx.reach()
+    ref = REFMAP[f].get(p)
+    if ref is None:
+        hx.require(not ex and not st_ok, "C16:nonexistent-member-found", lambda: "%s: %r after asking %s" % (f, p, wf))
+    else:
+        hx.require(ex and st_ok and (isf if ref[0] != "dir" else isd), "C16:member-lost-after-a-lookup-in-another-archive", lambda: "%s: %r after asking %s: exists=%s stat=%s" % (f, p, wf, ex, st_ok))
+        if ref[0] != "dir":
+            hx.require(data == ref[1], "C16:member-bytes-differ", lambda: "%s: %r" % (f, p))
     return True
 
 
@@ -357,6 +388,10 @@ def obligations(tier, seed):
                       timeout=300 if tier == "quick" else 1500,
                       desc="%s: the answer for member path p after an earlier lookup of an arbitrary path equals the reference (entrycache / invalid_paths memo state is transparent)" % f,
                       bounds="|p| <= %d, |warm| <= %d over the archive's alphabet" % (3 if tier == "quick" else 4, 2 if tier == "quick" else 3), functions=["handlers.ZIP.VFSZip._getcacheinode"]))
+    obs.append(Ob(id="C16.2b-cross-archive", body="harness.C16:body_cross", sig="fx: int, wfx: int, pi: int",
+                  pre=["0 <= fx < %d" % len(FIXTURES), "0 <= wfx < %d" % len(FIXTURES), "0 <= pi < %d" % len(CROSS)], timeout=300,
+                  desc="a lookup of a member path in one archive does not change what another archive answers for the same path (negative-lookup and directory memos are per archive)",
+                  bounds="%d x %d archive pairs x %d member paths (symbolic indices)" % (len(FIXTURES), len(FIXTURES), len(CROSS)), functions=["handlers.ZIP.VFSZip._getcacheinode (entrycache / invalid_paths)"]))
     obs.append(Ob(id="C16.6-archive-vs-extraction", body="harness.C16:body_equiv", sig="i: int", pre=["0 <= i < %d" % len(REQS)], timeout=600,
                   desc="generated archive (link chains, dangling/cyclic/escaping links, implicit dirs, dot-files, non-UTF-8 sidecars and names, .Links/.cap/gophermap inside): "
                        "menus, Gopher+ directory info and documents are identical to those of the extracted tree",
